@@ -10,19 +10,68 @@ import Gmsm.Model.X509Sign
 namespace Props.C09
 open Model.X509Sign Gen.X509
 
-/-- the creator accepts (f, req), and what the signer's scheme covers is exactly what the verifier's
-    scheme checks for the algorithm recovered from the OID written into the object -/
-def consistent (f : Family) (req : String) : Bool :=
+/-- the creator `c` accepts (f, req); what the signer's scheme covers is exactly what the verifier's scheme checks
+    for the algorithm recovered from the OID written into the object; the scheme the signature is made with
+    (for an RSA key: PKCS#1 v1.5 or PSS, by the options handed to `Sign`) is the scheme the verifier uses for that
+    algorithm, and the scheme the emitted AlgorithmIdentifier names -/
+def consistent (c : Creator) (f : Family) (req : String) : Bool :=
   match resolve f req with
   | none => false
   | some (oid, hash) =>
-    decide (signed f hash ≠ .rejected) && decide (signed f hash = verified f (parsedAlgo oid req))
+    decide (signedBy c f hash ≠ .rejected) && decide (signedBy c f hash = verified f (parsedAlgo oid req))
+      && decide (signScheme c f req = verifyScheme f (parsedAlgo oid req))
+      && decide (namedScheme (parsedAlgo oid req) = some (signScheme c f req))
 
-/-- T1 `sign_verify_consistent`: for every signer key family and every requested algorithm that is
-    left to default or belongs to that family, the creator accepts, and the bytes the signer's scheme
-    finally signs are the bytes the verifier's scheme checks. -/
+/-- T1 `sign_verify_consistent`: for every creator (certificate, request, revocation list), every signer key
+    family and every requested algorithm that is left to default or belongs to that family, the creator accepts,
+    the bytes the signer's scheme finally signs are the bytes the verifier's scheme checks, and the signature
+    scheme used is the one the verifier applies and the emitted algorithm identifier names.
+    (Strengthened in round 9: quantified over the creators, with the scheme conjuncts; before, an RSA-PSS
+    request - labelled RSASSA-PSS, signed PKCS#1 v1.5 - satisfied the weaker statement.) -/
 theorem sign_verify_consistent :
-    ∀ f ∈ families, ∀ req ∈ "" :: inFamily f, consistent f req = true := by decide
+    ∀ c ∈ creators, ∀ f ∈ families, ∀ req ∈ "" :: inFamily f, consistent c f req = true := by decide
+
+/-- `emitted_algorithm_names_scheme`: accepted ⇒ the emitted algorithm identifier names the scheme the signature
+    was made with, and `checkSignature` verifies with that scheme - for requests as for certificates and
+    revocation lists. -/
+theorem emitted_algorithm_names_scheme :
+    ∀ c ∈ creators, ∀ f ∈ families, ∀ req ∈ "" :: inFamily f, ∃ oid hash, resolve f req = some (oid, hash) ∧
+      namedScheme (parsedAlgo oid req) = some (signScheme c f req) ∧
+      verifyScheme f (parsedAlgo oid req) = signScheme c f req := by
+  intro c hc f hf req hr
+  have h := sign_verify_consistent c hc f hf req hr
+  unfold consistent at h
+  cases hres : resolve f req with
+  | none => rw [hres] at h; cases h
+  | some p =>
+    obtain ⟨oid, hash⟩ := p
+    rw [hres] at h
+    simp only [Bool.and_eq_true, decide_eq_true_eq] at h
+    exact ⟨oid, hash, rfl, h.2, h.1.2.symm⟩
+
+/-- regenerated fact: all three creators hand `*rsa.PSSOptions` to the signer exactly when the template's
+    algorithm `isRSAPSS()`, with the salt length `checkSignature` insists on -/
+theorem creators_pass_pss_options :
+    ∀ c ∈ creators, c.signerOpts = ("pss-iff-requested-isRSAPSS", verifyPSSSalt) := by decide
+
+/-- an RSA-PSS request is signed with RSASSA-PSS (the statement that was false before the repair) -/
+theorem csr_pss_signed_with_pss :
+    ∀ req ∈ rsaPSSAlgos, accepts .rsa req = true ∧ signScheme .csr .rsa req = .pss verifyPSSSalt ∧
+      verifyScheme .rsa req = .pss verifyPSSSalt := by decide
+
+/-- cur (before the repair, `CreateCertificateRequest` handed the bare hash to the signer): for each RSA-PSS
+    algorithm the request was accepted and labelled RSASSA-PSS, but signed PKCS#1 v1.5 - its own
+    `CheckSignature` verifies with PSS. -/
+theorem hash_only_creator_mislabels_pss :
+    ∀ req ∈ rsaPSSAlgos, accepts .rsa req = true ∧ signSchemeWith ("hash-only", "") .rsa req = .pkcs1v15 ∧
+      verifyScheme .rsa req ≠ signSchemeWith ("hash-only", "") .rsa req ∧
+      namedScheme req ≠ some (signSchemeWith ("hash-only", "") .rsa req) := by decide
+
+/-- non-vacuity: the PSS algorithms are in the RSA family and the quantifier of `sign_verify_consistent` reaches
+    the request creator with them -/
+example : Creator.csr ∈ creators ∧ Family.rsa ∈ families ∧ "SHA256WithRSAPSS" ∈ "" :: inFamily .rsa ∧
+    rsaPSSAlgos = ["SHA256WithRSAPSS", "SHA384WithRSAPSS", "SHA512WithRSAPSS"] ∧
+    consistent .csr .rsa "SHA256WithRSAPSS" = true := by decide
 
 /-- requested algorithms of another key family are refused (for the key families with their own
     public-key algorithm tag; an SM2 key carries the ECDSA tag, as in the source) -/
